@@ -343,11 +343,18 @@ class Machine:
                         v -= 1 << bits
                 return v
             if isinstance(v, tuple) and v and isinstance(v[0], tuple):
-                # integer-typed symbolic scalar: width change
-                m = re.match(r"^[iu](\d+)$", ty)
+                # integer-typed symbolic scalar: width change (sign extension when the SOURCE type is signed)
+                m = re.match(r"^[iu](\d+|size)$", ty)
                 if m:
-                    nb = int(m.group(1))
-                    return v[:nb] if len(v) >= nb else v + (Z,) * (nb - len(v))
+                    nb = 64 if m.group(1) == "size" else int(m.group(1))
+                    if len(v) >= nb:
+                        return v[:nb]
+                    src = rv[2]
+                    sty = fn.locals[src[1][0]] if (src[0] in ("cp", "mv") and not src[1][1]) else None
+                    if sty is None:
+                        raise Unsupported("widening cast of a symbolic value of unknown signedness")
+                    ext = v[-1] if sty.startswith("i") else Z
+                    return v + (ext,) * (nb - len(v))
             return v
         if k in ("ref", "raw"):
             l, projs = rv[2]
